@@ -20,7 +20,7 @@ func C10(r *core.Run) {
 		"(R10.2) every bolt bucket lookup/creation/deletion by a request-supplied name is dominated by a rejecting comparison with the internal bookkeeping bucket name; " +
 		"(R10.3) every SingleBucketBackend method rejects other bucket names before touching the filesystem; (R10.4) every object-level method of MultiBucketBackend first establishes that the bucket directory exists; " +
 		"(R10.5) the metadata file name contains a hash over the unmodified key (distinct keys ⇒ distinct metadata files); (R10.6) routing passes bucket and key to the handlers unchanged; " +
-		"(R10.7) recursive removal (RemoveAll) is applied only to bucket-level paths, never to a path built from an object key; (R10.8) every bolt record operation is keyed by exactly the addressed name. (R10.9) a bolt write keyed by a key parameter goes to the bucket parameter paired with it; (R10.10) the multi-bucket backend validates bucket names before using them as paths and a listing prefix directory is contained; (R10.11) a file the fs backends name themselves is only ever created exclusively — no internal name shadows a key; (R01.6/R01.9) stored metadata maps of other objects are never written."
+		"(R10.7) recursive removal (RemoveAll) is applied only to bucket-level paths, never to a path built from an object key; (R10.8) every bolt record operation is keyed by exactly the addressed name. (R10.9) a bolt write keyed by a key parameter goes to the bucket parameter paired with it; (R10.10) the multi-bucket backend validates bucket names before using them as paths and a listing prefix directory is contained; (R10.11) a file the fs backends name themselves is only ever created exclusively — no internal name shadows a key; (R10.12) the keys of a multi-object delete reach the backend exactly as the request body named them; (R01.6/R01.9) stored metadata maps of other objects are never written."
 	r.NotDecided = "non-interference as a whole-store statement, percent-encoding, very long segments, what the OS does with odd names, keys that are path-prefixes of other keys on the fs backends (a/b vs a/b/c is refused by the OS, not by a rule)"
 	ctx := oblig.NewCtx(r.P)
 	rule101(r, ctx)
@@ -34,6 +34,7 @@ func C10(r *core.Run) {
 	rule109(r)
 	rule1010(r)
 	rule1011(r)
+	rule1012(r)
 	rule016(r, "C10")
 	rule019(r)
 }
@@ -1023,4 +1024,59 @@ func rule1011(r *core.Run) {
 		})
 	}
 	r.Floor("R10.11", 3, "writing opens in the fs backends")
+}
+
+// rule1012 — the keys of a multi-object delete are the keys the body names.
+func rule1012(r *core.Run) {
+	r.Rule("R10.12", "in deleteMulti the keys (and version ids) handed to DeleteMulti / DeleteMultiVersions are the decoded request's own ObjectID values: nothing in package gofakes3 stores into ObjectID.Key or ObjectID.VersionID after decoding, and no string-transforming call (strings.*, path.*, url.*, concatenation) lies between the decoded key and the backend call — keys are opaque, a trimmed or cleaned key addresses a different object")
+	fn := mustFunc(r, "gofakes3.(*GoFakeS3).deleteMulti")
+	if fn == nil {
+		return
+	}
+	name := fname(r, fn)
+	// no rewriting of the decoded ids
+	nSt := 0
+	for _, fld := range []string{"gofakes3.ObjectID.Key", "gofakes3.ObjectID.VersionID"} {
+		for _, st := range r.P.FieldStores(fld) {
+			if r.P.PkgShort(st.Parent()) != "gofakes3" {
+				continue
+			}
+			if baseRoot(st.Addr) != nil {
+				continue // a fresh literal
+			}
+			nSt++
+			r.Violated("R10.12", key(fname(r, st.Parent()), "decoded object id rewritten", strings.TrimPrefix(fld, "gofakes3.ObjectID.")), pos(r, st), "a decoded "+fld+" is overwritten before it reaches the backend: the delete addresses a different key than the request named")
+		}
+	}
+	n := 0
+	core.Instrs(fn, func(in ssa.Instruction) {
+		c, ok := in.(*ssa.Call)
+		if !ok {
+			return
+		}
+		cn := r.P.CalleeName(c)
+		if cn != "invoke:gofakes3.Backend.DeleteMulti" && cn != "invoke:gofakes3.VersionedBackend.DeleteMultiVersions" {
+			return
+		}
+		n++
+		args := c.Call.Args
+		ks := r.P.SliceOf(args[len(args)-1], core.SliceOpts{Depth: -1, NoIndex: true})
+		bad := ""
+		for _, l := range ks.LeafList("call:") {
+			for _, pfx := range []string{"call:strings.", "call:path.", "call:path/filepath.", "call:net/url.", "call:bytes.", "call:unicode"} {
+				if strings.HasPrefix(l, pfx) {
+					bad = strings.TrimPrefix(l, "call:")
+				}
+			}
+		}
+		if ks.Has("op:+") {
+			bad = "string concatenation"
+		}
+		r.Check(bad == "" && (ks.Has("field:gofakes3.ObjectID.Key") || ks.Has("field:gofakes3.DeleteRequest.Objects")), "R10.12", key(name, "keys reach the backend unchanged", strings.TrimPrefix(cn, "invoke:gofakes3.")), pos(r, c), "the decoded keys themselves",
+			"the keys of the multi-object delete are transformed ("+bad+") before the backend call: a key with a leading or trailing delimiter deletes its trimmed sibling instead")
+	})
+	if n < 2 {
+		r.Unresolved("R10.12: %d multi-delete backend calls found in deleteMulti (expected 2)", n)
+	}
+	r.Held("R10.12", key(name, "no rewriting of decoded ids"), "", sprintf("%d stores into ObjectID fields outside literals", nSt))
 }
